@@ -46,6 +46,8 @@ def scenario(rng, sid, focus, big=False):
     # k000 <-> k001: the processors' early-reference callbacks fire (in the contract's sequence) while k001 is populated
     sc["cycle"] = bool(sc["comps"] >= 1 and sc["procs"] and rng.random() < 0.5)
     sc["restart"] = focus in ("C13", "mix") and rng.random() < 0.3      # the same App started a second time, without components
+    for r_ in sc["loaders"] + sc["procs"]:
+        r_["zero"] = rng.random() < 0.3      # the first marked unordered loader / processor is realised by a field-less type
     for r_ in sc["runners"]:
         r_["zero"] = rng.random() < 0.3      # realised by a field-less runner type (at most one per class; the harness falls back otherwise)
     for i, ld in enumerate(sc["loaders"]):
